@@ -115,6 +115,15 @@ def run(tier, seed):
     rng = SplitMix64(seed)
     conts = build_corpus()
     r = corpus_mod.Resolver()
+    # ---- T-gen: the associated types `type VersionN = …` of every CollectiveMessage impl name the type protocol version N really uses
+    import collective_alias
+    al_out, al_prob = collective_alias.check()
+    for p_ in al_prob:
+        rep.violation(f"C14/associated-type/{p_['file']}/v{p_.get('version', 0)}", f"collective/{p_['file']}: {p_['problem']}", p_, no_input=True)
+    for a_ in al_out:
+        if not a_["ok"]:
+            rep.violation(f"C14/associated-type/{a_['file']}/v{a_['version']}", f"collective/{a_['file']}: `type Version{a_['version']}` resolves to {a_['resolved']} but protocol version {a_['version']} uses {a_['expected']} for {a_['type']}: read_protocol / write_protocol({a_['version']}) run another version's codec",
+                          a_, no_input=True)
     d = Driver()
     # ---- (a) embedding check on the schemas
     fams = sorted({o["name"] for o in r.objs if o["kind"] in ("clogin", "slogin")})
@@ -164,6 +173,12 @@ def run(tier, seed):
             # enumerator sweep: sample k gives every enum field its k-th declared enumerator
             gq.append(f"gen {c['key']} {rng.below(1 << 40)} 2 {500000 + k}")
             gm.append((c, "gen"))
+        if "arrv" in toks:
+            # counted arrays at the boundaries of the narrower count widths (a view with a u8 count next to one with a u16 count): exactly
+            # 254 / 255 / 256 / 257 / 300 elements, as far as the version's own count field can say so
+            for L_ in (254, 255, 256, 257, 300):
+                gq.append(f"gen {c['key']} {rng.below(1 << 40)} {1000 + L_} 1000000")
+                gm.append((c, "genlong"))      # not used for lowering version-8 values: 256 elements are not representable with a u8 count
         for site in range(3):
             gq.append(f"genbad {c['key']} {rng.below(1 << 40)} {site} {rng.below(3)}")
             gm.append((c, "bad"))
@@ -184,7 +199,7 @@ def run(tier, seed):
                 if rq not in seen:
                     seen.add(rq)
                     reqs.append(rq)
-                    meta.append((c["name"], v, dr, how if cut == len(fr) else "truncated"))
+                    meta.append((c["name"], v, dr, ("gen" if how == "genlong" else how) if cut == len(fr) else "truncated"))
         elif v == 8 and how == "gen":
             for vv in VERSIONS:
                 rq = f"coll8 {vv} {dr} {fr.hex()}"
